@@ -23,11 +23,17 @@ ASSUMPTIONS = C.STUB_ASSUMPTIONS + ["keys produced by jax.random.split are pairw
 
 def run(R, name, flag):
     from jumanji.wrappers import AutoResetWrapper
-    WC.set_mode(name)
-    env = configs.make(name)
+    WC.set_mode(name.partition("+")[0])
+    if name.endswith("+MultiToSingle"):
+        # the wrapped "environment" is itself a wrapper (the usual single-policy setup for multi-agent environments): AutoResetWrapper must
+        # drive THAT object (aggregated scalar reward/discount), not the innermost environment
+        from jumanji.wrappers import MultiToSingleWrapper
+        env = MultiToSingleWrapper(configs.make(name.partition("+")[0]))
+    else:
+        env = configs.make(name)
     W = AutoResetWrapper(env, next_obs_in_extras=flag)
     ctx = Ctx(max_unroll=24)
-    St = WC.fresh_state(ctx, env, "S", name)
+    St = WC.fresh_state(ctx, getattr(env, "unwrapped", env) if name.endswith("+MultiToSingle") else env, "S", name.partition("+")[0])
     act, apre = S.sym_action(ctx, env)
     R.nvars += S.nvars(St) + S.nvars(act)
     R.bound(config=name, next_obs_in_extras=flag, state="arbitrary (dtype ranges" + (", declared integer ranges" if name.partition("@")[0] in WC.RANGES else "") + ")",
@@ -103,6 +109,25 @@ def run(R, name, flag):
         distinct = key_distinctness(ctx, St)
         R.prove("two successive automatic resets use different keys", A + apre2 + ctx.assumptions + distinct, S.neg(same),
                 replay=lambda m: (True, {"config": name, "note": "auto-reset key re-used: k2 is the same term as k1"}))
+        # ... and the chain continues: the key an automatic reset leaves in the state must DERIVE from the key it was given.  If
+        # reset stores a constant (or otherwise key-independent) key, the first automatic reset is fresh but every later one
+        # re-derives the same key and replays the same instance.  Decided on the encoding (the stored key is a concrete constant
+        # although the reset key is symbolic) and confirmed on the real code with two different real keys.
+        stored = rs.key if hasattr(rs, "key") else None
+        if stored is not None:
+            # only RANDOM generators can replay: if no other leaf of the reset state depends on the reset key (Toy/CSV/Dummy
+            # generators), a constant stored key is harmless and nothing is claimed
+            random_gen = any(not l.conc for p_, l in jax.tree_util.tree_leaves_with_path(rs, is_leaf=lambda x: isinstance(x, SV)) if "key" not in jax.tree_util.keystr(p_))
+            const_key = bool(stored.conc) and random_gen
+
+            def rp_chain():
+                s_a, _ = jax.jit(env.reset)(jax.random.PRNGKey(1))
+                s_b, _ = jax.jit(env.reset)(jax.random.PRNGKey(2))
+                return bool(np.array_equal(np.asarray(s_a.key), np.asarray(s_b.key))), {"config": name, "reset(PRNGKey(1)).key": np.asarray(s_a.key).tolist(), "reset(PRNGKey(2)).key": np.asarray(s_b.key).tolist()}
+            confirmed, det = rp_chain() if const_key else (False, {})
+            R.validated += 1 if const_key else 0
+            R.structural("the key stored by reset derives from the reset key (else every automatic reset after the first replays one instance)",
+                         not (const_key and confirmed), det)
         # W.reset adds next_obs only with the flag; plain reset passthrough
     key = ctx.fresh_arr("rk", (2,), np.uint32)
     w0s, w0t = S.call(ctx, W.reset, key, R=R, name="AutoResetWrapper.reset")
@@ -140,7 +165,7 @@ def key_distinctness(ctx, St):
 def jobs(tier, seed):
     js = []
     names = WC.WRAP_ENVS + (["Cleaner@3x5x2", "Maze@3x5", "Snake@4x3", "Tetris@6x6", "GraphColoring@5"] if tier == "thorough" else [])
-    for n in names:
+    for n in names + ["Connector+MultiToSingle"]:
         for flag in (False, True):
             js.append((f"{n}/next_obs={flag}", "checks.C13", "run", {"name": n, "flag": flag}))
     return js
